@@ -2,6 +2,7 @@
 
 from __future__ import annotations
 
+from functools import partial
 from typing import TYPE_CHECKING
 from typing import Optional
 
@@ -41,7 +42,14 @@ class DictLoader(BaseLoader):
         except KeyError as err:
             raise TemplateNotFoundError(template_name) from err
 
-        return TemplateSource(source, template_name, None)
+        return TemplateSource(
+            source,
+            template_name,
+            partial(self._uptodate, template_name, source),
+        )
+
+    def _uptodate(self, template_name: str, source: str) -> bool:
+        return self.templates.get(template_name) == source
 
 
 class CachingDictLoader(CachingLoaderMixin, DictLoader):
